@@ -430,6 +430,16 @@ pub fn prefill(quick: bool) -> Vec<Scenario> {
         )
         .prefill(0, 1),
     );
+    // a worker with a limited lifetime: while the first task runs into its time limit the worker
+    // ages below the time request of the task that was pre-sent to it
+    v.push(
+        Scenario::new(
+            "prefill-lifetime-runs-out",
+            vec![w(1).time_limit(100)],
+            vec![vec![sub(SubmitSpec::array(&[0, 1], RqSpec::cpus(1).min_time(50)).time_limit(60))]],
+        )
+        .prefill(0, 1),
+    );
     // request variants of different size with pre-sending: a pre-sent task is called back and
     // re-placed on the same worker with another variant while the worker starts it from its backlog
     v.push(
